@@ -81,7 +81,7 @@ Proof.
   intros j r H. split.
   - destruct j; try reflexivity; discriminate.
   - unfold decode_agent_v1 in H.
-    destruct (tagged decode_l3 v1_tag v1_variants j) as [[name d] |]; [| discriminate].
+    destruct (tagged decode_l3 false v1_tag v1_variants j) as [[name d] |]; [| discriminate].
     eapply v1_to_run_rwd; eauto.
 Qed.
 
@@ -98,7 +98,7 @@ Proof.
     assert (H1 : str_eqb s_human name = false) by (apply str_eqb_neq; congruence).
     assert (H2 : str_eqb s_ai_agent name = false) by (apply str_eqb_neq; congruence).
     unfold s_human in H1. unfold s_ai_agent in H2. rewrite H1, H2. reflexivity. }
-  unfold fields in *. now rewrite E.
+  unfold tag_variant. unfold fields in *. now rewrite E.
 Qed.
 
 (* ================================================================= paths *)
